@@ -52,7 +52,7 @@ def all_harnesses():
                     pn = "".join("1" if x else "0" for x in par)
                     h = Harness(f"c19_b11t_c{cap}_f{f}_t{tp}_p{pn}", f"crate::c19::b11t({cap}, {f}, {tp}, &[{', '.join(str(x).lower() for x in par)}])",
                                 unwind=12, unit="derive sync_tag 1x1",
-                                shape={"arity": "1x1 sync_tag", "cap": cap, "f": f, "tagpos": tp, "odd": pn}, core=(cap == 2 and (f == 1 or pn in ("10", "01"))), timeout=900)
+                                shape={"arity": "1x1 sync_tag", "cap": cap, "f": f, "tagpos": tp, "odd": pn}, core=False, timeout=2400)
                     h.foldable = False
                     hs.append(h)
     for ga in (False, True):
